@@ -40,10 +40,29 @@ Definition sd_guards : list (Z -> Z) :=
    sdsetfillvalue_denied; sdsetdimstrs_denied; sdsetdimscale_denied; sdsetdimval_comp_denied; sdwritedata_denied;
    sdsetexternalfile_denied; sdsetcompress_denied; sdsetchunk_denied; sdsetnbitdataset_denied; sdwritechunk_denied].
 Definition sd_guard (k : nat) (flags : Z) : Z := nth k sd_guards (fun _ => 1) flags.
-(** which of them mark the header dirty (handle->flags |= NC_HDIRTY in their body; the data writers SDwritedata /
-    SDwritechunk / SDsetexternalfile / SDsetchunk / SDsetnbitdataset leave that to the lower layers) *)
+(** which of them mark the header dirty: by an assignment of their own (handle->flags |= NC_HDIRTY), or by calling the
+    helper SDIregister_data_ref, which does it for them (both counted per function by the translator; nothing is
+    hard-coded here).  SDwritedata / SDwritechunk leave it to the lower layers. *)
+Definition marks (own calls_helper : Z) : bool :=
+  nz own || (nz calls_helper && nz sd_helper_marks_hdirty_sdiregister_data_ref).
 Definition sd_marks_header (k : nat) : bool :=
-  nth k [true; true; true; true; true; true; true; true; true; true; false; false; true; false; false; false] false.
+  nth k
+      [marks sd_marks_hdirty_itself_sdcreate sd_registers_data_ref_sdcreate;
+       marks sd_marks_hdirty_itself_sdsetdimname sd_registers_data_ref_sdsetdimname;
+       marks sd_marks_hdirty_itself_sdsetrange sd_registers_data_ref_sdsetrange;
+       marks sd_marks_hdirty_itself_sdsetattr sd_registers_data_ref_sdsetattr;
+       marks sd_marks_hdirty_itself_sdsetdatastrs sd_registers_data_ref_sdsetdatastrs;
+       marks sd_marks_hdirty_itself_sdsetcal sd_registers_data_ref_sdsetcal;
+       marks sd_marks_hdirty_itself_sdsetfillvalue sd_registers_data_ref_sdsetfillvalue;
+       marks sd_marks_hdirty_itself_sdsetdimstrs sd_registers_data_ref_sdsetdimstrs;
+       marks sd_marks_hdirty_itself_sdsetdimscale sd_registers_data_ref_sdsetdimscale;
+       marks sd_marks_hdirty_itself_sdsetdimval_comp sd_registers_data_ref_sdsetdimval_comp;
+       marks sd_marks_hdirty_itself_sdwritedata sd_registers_data_ref_sdwritedata;
+       marks sd_marks_hdirty_itself_sdsetexternalfile sd_registers_data_ref_sdsetexternalfile;
+       marks sd_marks_hdirty_itself_sdsetcompress sd_registers_data_ref_sdsetcompress;
+       marks sd_marks_hdirty_itself_sdsetchunk sd_registers_data_ref_sdsetchunk;
+       marks sd_marks_hdirty_itself_sdsetnbitdataset sd_registers_data_ref_sdsetnbitdataset;
+       marks sd_marks_hdirty_itself_sdwritechunk sd_registers_data_ref_sdwritechunk] false.
 
 Definition run_l1 (s : sd) (ops : list op) : sd * list dev :=
   let '(f', l) := run (s_l1 s) ops in
